@@ -56,8 +56,14 @@ def check_L(S, p, tier):
         for i in range(p["shapes"]):
             rng = rng_for(seed, "c04", p["name"], i)
             shape = gen_shape(rng, i, tier)
-            kind = rng.choice(["int", "bigint", "sparse", "int", "real", "wide", "gap"])
-            if kind == "gap":
+            kind = rng.choice(["int", "bigint", "sparse", "int", "real", "wide", "gap", "nonfinite"])
+            if kind == "nonfinite":
+                # ordinary values with a few infinities / NaNs (e.g. the output of `fold --fill inf`): a cell that receives +inf is +inf,
+                # one that receives a NaN or both infinities is NaN, all others are ordinary sums
+                data = [float(rng.randrange(0, 50)) for _ in range(O.prod(shape))]
+                for _ in range(rng.randint(1, 3)):
+                    data[rng.randrange(len(data))] = rng.choice([float("inf"), float("inf"), float("-inf"), float("nan")])
+            elif kind == "gap":
                 # a huge cell next to small / zero ones: a rounding remainder of one output cell must not leak into another
                 data = [rng.choice([1e16, 3e15 + 0.5, 0.0, 1.0, 0.25, 7.0]) for _ in range(O.prod(shape))]
             else:
@@ -72,7 +78,8 @@ def check_L(S, p, tier):
                     if len(set(q)) < len(q) or d in q]
             bad += seqs if len(seqs) <= 60 else rng.sample(seqs, 60)
             for axes in allorders:
-                cases.append({"shape": shape, "data": data, "axes": axes, "kind": "valid" if len(axes) < d else "toomany", "exact": kind in ("int", "bigint", "sparse")})
+                cases.append({"shape": shape, "data": data, "axes": axes, "kind": "valid" if len(axes) < d else "toomany", "exact": kind in ("int", "bigint", "sparse"),
+                              "nonfinite": kind == "nonfinite"})
             for axes in bad:
                 cases.append({"shape": shape, "data": data, "axes": axes, "kind": "bad"})
     if "replay" not in p and p["i"] % 4 == 0:
@@ -111,6 +118,33 @@ def check_L(S, p, tier):
             continue
         if "err" in r:
             S.viol("C04:valid-rejected", "[L %s] valid request rejected: %s" % (tag, r["err"]), wit)
+            continue
+        if c.get("nonfinite"):
+            import math as _m
+            keep_ = [j for j in range(d) if j not in axes]
+            eshape_ = [shape[j] for j in keep_]
+            terms = {}
+            for f_, ix in enumerate(itertools.product(*[range(x) for x in shape])):
+                terms.setdefault(tuple(ix[j] for j in keep_), []).append(data[f_])
+            gshape, gdata = r["shape"], [h2f(x) for x in r["data"]]
+            badc = []
+            for i_, key in enumerate(itertools.product(*[range(x) for x in eshape_])):
+                ts = terms[key]
+                if any(_m.isnan(t) for t in ts) or (float("inf") in ts and float("-inf") in ts):
+                    okc = _m.isnan(gdata[i_]) if i_ < len(gdata) else False
+                    e_ = "NaN"
+                elif float("inf") in ts or float("-inf") in ts:
+                    e_ = float("inf") if float("inf") in ts else float("-inf")
+                    okc = i_ < len(gdata) and gdata[i_] == e_
+                else:
+                    e_ = float(sum(ts))
+                    okc = i_ < len(gdata) and gdata[i_] == e_
+                if not okc:
+                    badc.append((i_, gdata[i_] if i_ < len(gdata) else None, e_))
+            S.count("L_nonfinite_cells", len(gdata))
+            if gshape != eshape_ or badc:
+                S.viol("C04:value-nonfinite", "[L %s] cells with infinite / NaN terms: (flat, got, expected) %r" % (tag, badc[:4]), wit)
+            S.case(key=digest([shape, GS.hexes(data)[:40], axes, "nf"]), nontrivial=d >= 2 and len(axes) >= 1)
             continue
         if not c.get("exact", True):
             # floating data: every output cell must be the sum of ITS OWN terms; a correct summation in any order is within
